@@ -207,6 +207,11 @@ class Interp:
             if e.id in self.env:
                 return self.env[e.id]
             raise Undecided("name " + e.id)
+        if isinstance(e, ast.IfExp):
+            return self.ev(e.body) if self.truthy(self.ev(e.test)) else self.ev(e.orelse)
+        if isinstance(e, ast.NamedExpr) and isinstance(e.target, ast.Name):
+            self.env[e.target.id] = self.ev(e.value)
+            return self.env[e.target.id]
         if isinstance(e, ast.BoolOp):
             v = None
             for x in e.values:
@@ -691,10 +696,13 @@ class _CurveW(StandIn):
 
     def __init__(self):
         self.segments = tuple(_SegW(i) for i in range(3))
-        self.vertices = tuple(("pt", i, Fr(0)) for i in range(3))
+        self.corners = tuple(("pt", i, Fr(0)) for i in range(3))
+        # segment 1 is curved: its interior control point is not a point of the curve
+        self.vertices = (self.corners[0], self.corners[1], ("ctrl", 1, Fr(-1)), self.corners[2])
 
     def points(self, subnpts=None):
-        return self.vertices
+        k = int(subnpts or 0)
+        return tuple(("pt", i, Fr(j, k + 1)) for i in range(3) for j in range(k + 1))
 
     def __and__(self, other):
         return list(self.CROSSINGS)
@@ -726,6 +734,8 @@ def contains_jordan_world(ctx, out, parts=("vertices", "mids", "flag")):
     gaps = [(0, Fr(1, 4), Fr(1, 2)), (0, Fr(1, 2), Fr(3, 4)), (1, Fr(0), Fr(1, 2)), (2, Fr(1, 2), Fr(1))]
     scen = [("everything inside", lambda p: False, True),
             ("vertex 1 outside", lambda p: p == ("pt", 1, Fr(0)), False),
+            ("an off-curve control point of a curved segment lies outside, the curve itself inside",
+             lambda p: p[0] == "ctrl", True),
             ("curve leaves between the crossings at 1/2 and 3/4 of segment 0",
              lambda p: p[1] == 0 and Fr(1, 2) < p[2] < Fr(3, 4), False),
             ("curve leaves between the crossings at 1/4 and 1/2 of segment 0",
@@ -751,13 +761,15 @@ def contains_jordan_world(ctx, out, parts=("vertices", "mids", "flag")):
             if any(f is not flag for p, f in S.asked):
                 bad.add(("flag", "a sampled curve point is tested without forwarding the caller's boundary flag"))
             if label == "everything inside":
-                if not all(v in pts for v in J.vertices):
+                if not all(v in pts for v in J.corners):
                     bad.add(("vertices", "the vertices of the curve are not all tested"))
                 if not all(any(p[1] == i and a < p[2] < b for p in pts) for i, a, b in gaps):
                     bad.add(("mids", "no test of curve points between consecutive crossings"))
             if bool(got) != want:
                 if "between" in label:
                     bad.add(("mids", "no test of curve points between consecutive crossings"))
+                elif "off-curve" in label:
+                    bad.add(("vertices", "a control point that does not lie on the curve decides the containment of the curve"))
                 elif "vertex" in label:
                     bad.add(("vertices", "the vertices of the curve are not all tested"))
                 else:
